@@ -290,6 +290,10 @@ func (cf *convFunc) resultType(a *convArm) (types.Type, bool, bool) {
 
 func propC20(c *Ctx) {
 	l := c.L
+	defer func() {
+		rle := c.Rule("loop-err-checked", "the conversion of every element of a container reports its error: the error of a call made inside a loop of the root package is tested, returned or handed on inside the loop", 4)
+		ruleLoopErrChecked(c, rle, l.RepoFuncs(func(p string) bool { return p == modPath }), 4)
+	}()
 	ri := c.Rule("inverse", "ToInterface and ToObject are mutual inverses on the plain types: for each plain uGO type T the arm of ToInterface yields a Go type G for which ToObject has an arm yielding T again, and for each canonical Go type G the arm of ToObject yields a T whose ToInterface arm yields G", 18)
 	toObj, toAlt, toIf := parseConvFunc(l, "ToObject"), parseConvFunc(l, "ToObjectAlt"), parseConvFunc(l, "ToInterface")
 	if !c.Anchor(ri, "ToObject / ToObjectAlt / ToInterface with a type switch", toObj != nil && toAlt != nil && toIf != nil) {
